@@ -190,6 +190,8 @@ def main(argv=None):
 
     t0 = time.time()
     from mc import explore
+    known0 = load_known()
+    explore.EARLY_STOP = lambda v: match_known(known0, prop, v.get("signature", "")) is None
     try:
         rep = module.run(args.tier, seed, only=(args.only.split(",") if args.only else None))
     except Exception:
